@@ -930,6 +930,54 @@ def tsp_single_node_probe(ctx, prop: str):
 
 
 # ------------------------------------------------------------------------------------------------
+# C12, PDP clause: the env's own select_start_nodes / get_num_starts override
+# ------------------------------------------------------------------------------------------------
+def check_pdp_starts(ctx, groups_quick=40, groups_thorough=400):
+    """real `PDPEnv.get_num_starts` / `select_start_nodes` against the model (`Rl4co.Pdp.numStarts`,
+    `selectStartNodes`), and every forced start against the REAL reset mask of its own instance (row r of the
+    k-fold expanded batch belongs to instance r mod B); starts of one instance distinct when k ≤ num_starts."""
+    for ad in (PDP, PDPF):
+        total = ctx.budget(groups_quick, groups_thorough)
+        for g in range(total):
+            n = ctx.rng.choice(ad.sizes(ctx.tier))
+            env, var = pick_env_n(ctx, ad, n)
+            B = ctx.rng.choice([1, 2, 3, 5])
+            insts = make_batch(ad, ctx, n, B, var)
+            h = insts[0]["h"]
+            k = ctx.rng.choice([1, h, max(1, h // 2), h, h + 1, 2 * h + 1])
+            td = env.reset(ad.to_td(insts))
+            num_real = int(env.cur.get_num_starts(td))
+            sel_real = [int(v) for v in env.cur.select_start_nodes(td, k).flatten().tolist()]
+            f = parse_fields(ctx.driver.ask(f"tspfam.pdp.starts {h} {int(ad.force)} {B} {k}"))
+            ctx.case((ad.name, "starts", h, B, k), nontrivial=True)
+            ctx.count(f"{ad.name}.starts.h={h}")
+            ctx.count(f"{ad.name}.starts.{'k<=num' if k <= h else 'k>num'}")
+            if str(num_real) != f.get("num") or ",".join(map(str, sel_real)) != f.get("starts"):
+                ctx.disagreement(f"{ad.name}: select_start_nodes / get_num_starts differ from the model",
+                                 {"h": h, "B": B, "k": k, "real_num": num_real, "real_starts": sel_real, "model": f})
+                continue
+            mask = td["action_mask"]
+            for r, a in enumerate(sel_real):
+                ok = 0 <= a < mask.shape[-1] and bool(mask[r % B, a])
+                if f.get("feas", "")[r:r + 1] != str(int(ok)):
+                    ctx.disagreement(f"{ad.name}: reset mask at a start node differs from the model",
+                                     {"h": h, "B": B, "k": k, "row": r, "start": a, "real": ok, "model": f.get("feas")})
+                if not ok and k <= num_real:
+                    key = (f"{ad.name}:start-masked:force_start_at_depot" if ad.force else f"{ad.name}:start-masked")
+                    ctx.violation(key, "a forced multi-start node is not admitted by the reset mask of its own instance",
+                                  {"num_loc": 2 * h, "force_start_at_depot": bool(ad.force), "B": B, "num_starts": k, "row": r,
+                                   "start": a, "reset_mask": rl.mask_str(mask[r % B])})
+                    break
+            if k <= num_real:
+                for b in range(B):
+                    mine = [sel_real[j * B + b] for j in range(k)]
+                    if len(set(mine)) != len(mine):
+                        ctx.violation(f"{ad.name}:starts-not-distinct", "forced starts of one instance repeat although k ≤ num_starts",
+                                      {"h": h, "B": B, "k": k, "instance": b, "starts": mine})
+            ctx.sample({"env": ad.name, "h": h, "B": B, "k": k, "starts": sel_real[:12], "num_starts": num_real}, cap=4)
+
+
+# ------------------------------------------------------------------------------------------------
 # C07, SMTWTP clause
 # ------------------------------------------------------------------------------------------------
 def check_smtwtp_perm(ctx, ad: SmtwtpAdapter = None, episodes_quick=80, episodes_thorough=1500):
@@ -1023,9 +1071,33 @@ def _mods(prop, fam):
     return [m] if os.path.exists(os.path.join(LEAN_DIR, m.replace(".", "/") + ".lean")) else []
 
 
+# proof obligations on the extracted source tokens (Rl4co/Proofs/TspfamParams.lean): each holds only for the
+# committed value of the `Params` constants it unfolds, and the property theorems of that unit go through it
+PARAM_THMS = {
+    ("C03", "tsp"): [("Rl4co.Tsp.tourNext_eq", "roll shift −1 along the step dimension (utils/ops.get_tour_length)")],
+    ("C03", "atsp"): [("Rl4co.Atsp.tourNext_eq", "roll shift −1 with dims=1 (ATSPEnv._get_reward)")],
+    ("C03", "smtwtp"): [("Rl4co.Smtwtp.weightedTardiness_eq", "cumsum along jobs, presum − due, clamp `< 0`")],
+    ("C04", "tsp"): [("Rl4co.Tsp.firstFlag_eq", "first-step test `td['i'].all() == 0`")],
+    ("C04", "atsp"): [("Rl4co.Atsp.firstFlag_cons", "first-step test `batch_to_scalar(td['i']) == 0`")],
+    ("C06", "tsp"): [("Rl4co.Tsp.check_eq", "checker operator `==`")],
+    ("C06", "atsp"): [("Rl4co.Atsp.check_eq", "checker operator `==`")],
+    ("C06", "pdp"): [("Rl4co.Pdp.check_unfold", "checker operators `==`, `!=`, `<`")],
+    ("C01", "pdp"): [("Rl4co.Pdp.pairIdx_eq", "pairing offset `(a + n // 2) % (n + 1)`"),
+                     ("Rl4co.Pdp.toDeliver0_eq", "reset: `n // 2 + 1` leading ones of to_deliver")],
+    ("C02", "pdp"): [("Rl4co.Pdp.pairIdx_eq", "pairing offset `(a + n // 2) % (n + 1)`")],
+    ("C05", "pdp"): [("Rl4co.Pdp.pairIdx_eq", "pairing offset `(a + n // 2) % (n + 1)`")],
+    ("C12", "pdp"): [("Rl4co.Pdp.selectStartNodes_eq", "start rule `% ((locs.shape[-2] - 1) // 2) + 1`"),
+                     ("Rl4co.Pdp.numStarts_eq", "get_num_starts = h")],
+}
+
+
 def _reg(prop, fam, run, extra_assumptions=()):
-    thms = _thms(prop, fam) if _mods(prop, fam) else []
-    register(Unit(prop, fam, run, drivers=DRV, lean_modules=_mods(prop, fam), theorems=thms,
+    thms = list(_thms(prop, fam)) if _mods(prop, fam) else []
+    mods = _mods(prop, fam)
+    if thms and (prop, fam) in PARAM_THMS:
+        thms += [Theorem(nm, "proved", "extracted-token obligation: " + note) for nm, note in PARAM_THMS[(prop, fam)]]
+        mods = mods + ["Rl4co.Proofs.TspfamParams"]
+    register(Unit(prop, fam, run, drivers=DRV, lean_modules=mods, theorems=thms,
                   assumptions=[NOTE[fam], STREAMS] + list(extra_assumptions) + ([] if thms else [NOTHM])))
 
 
@@ -1071,30 +1143,48 @@ THEOREMS.update({
     ("C04", "smtwtp"): [T("Rl4co.Smtwtp.batch_row_eq_solo", "proved", "row r of the (row-wise) batched step = solo run of instance r")],
     # ---------------- C05
     ("C05", "tsp"): [T("Rl4co.Tsp.run_of_feasible", "proved", "every permutation of the nodes is a finished mask-confined episode"),
-                     T("Rl4co.Tsp.complete_run_iff_feasible", "proved", "complete mask-confined episodes = feasible tours")],
+                     T("Rl4co.Tsp.complete_run_iff_feasible", "proved", "complete mask-confined episodes = feasible tours"),
+                     T("Rl4co.Tsp.opt_reachable", "proved", "∃ complete run attaining the minimum tour length over all feasible tours ∧ no complete run is shorter"),
+                     T("Rl4co.Tsp.opt_reachable_reward", "proved", "same as an equation of rewards (symmetric distances)")],
     ("C05", "atsp"): [T("Rl4co.Atsp.run_of_feasible", "proved", "every permutation of the nodes is a finished mask-confined episode"),
-                      T("Rl4co.Atsp.complete_run_iff_feasible", "proved", "complete mask-confined episodes = feasible tours")],
+                      T("Rl4co.Atsp.complete_run_iff_feasible", "proved", "complete mask-confined episodes = feasible tours"),
+                      T("Rl4co.Atsp.opt_reachable", "proved", "∃ complete run attaining the minimum directed tour cost ∧ no complete run has a better reward")],
     ("C05", "pdp"): [T("Rl4co.Pdp.run_of_feasible", "proved", "every precedence-respecting customer permutation is a finished mask-confined episode"),
                      T("Rl4co.Pdp.run_of_feasible_force", "proved", "same with the forced depot start"),
                      T("Rl4co.Pdp.complete_run_iff_feasible", "proved", "complete mask-confined episodes = feasible solutions"),
-                     T("Rl4co.Pdp.complete_run_iff_feasible_force", "proved", "same with the forced depot start")],
+                     T("Rl4co.Pdp.complete_run_iff_feasible_force", "proved", "same with the forced depot start"),
+                     T("Rl4co.Pdp.opt_reachable", "proved", "∃ complete run attaining the minimum length over all feasible solutions ∧ none is shorter"),
+                     T("Rl4co.Pdp.opt_reachable_force", "proved", "same with the forced depot start"),
+                     T("Rl4co.Pdp.opt_reachable_reward", "proved", "reward form (symmetric distances)")],
     ("C05", "smtwtp"): [T("Rl4co.Smtwtp.run_of_feasible", "proved", "every order of the jobs is a finished mask-confined episode"),
-                        T("Rl4co.Smtwtp.complete_run_iff_feasible", "proved", "complete mask-confined episodes = schedules")],
+                        T("Rl4co.Smtwtp.complete_run_iff_feasible", "proved", "complete mask-confined episodes = schedules"),
+                        T("Rl4co.Smtwtp.opt_reachable", "proved", "∃ complete run attaining the minimum weighted tardiness over all job orders ∧ none has a better reward")],
     # ---------------- C06
     ("C06", "tsp"): [T("Rl4co.Tsp.check_complete", "proved", "feasible tour ⇒ checker accepts"),
                      T("Rl4co.Tsp.check_sound_partial", "partial", "checker accepts ∧ width = n ⇒ feasible"),
                      T("Rl4co.Tsp.check_sound_counterexample", "proved", "¬ full soundness: [0,1,2] on 5 nodes is accepted (known finding)"),
-                     T("Rl4co.Tsp.check_iff", "proved", "acceptance ⇔ permutation of 0..width-1")],
+                     T("Rl4co.Tsp.check_iff", "proved", "acceptance ⇔ permutation of 0..width-1"),
+                     T("Rl4co.Tsp.feasible_iff_check_and_width", "proved", "feasible ⇔ accepted ∧ width = n (exact characterisation)")],
     ("C06", "atsp"): [T("Rl4co.Atsp.check_complete", "proved", "feasible tour ⇒ checker accepts"),
                       T("Rl4co.Atsp.check_sound_partial", "partial", "checker accepts ∧ width = n ⇒ feasible"),
                       T("Rl4co.Atsp.check_sound_counterexample", "proved", "¬ full soundness (known finding)"),
-                      T("Rl4co.Atsp.check_iff", "proved", "acceptance ⇔ permutation of 0..width-1")],
+                      T("Rl4co.Atsp.check_iff", "proved", "acceptance ⇔ permutation of 0..width-1"),
+                      T("Rl4co.Atsp.feasible_iff_check_and_width", "proved", "feasible ⇔ accepted ∧ width = n")],
     ("C06", "pdp"): [T("Rl4co.Pdp.check_complete", "proved", "feasible ⇒ checker accepts (no forced start)"),
                      T("Rl4co.Pdp.check_complete_force", "proved", "feasible ⇒ checker accepts (forced start)"),
                      T("Rl4co.Pdp.check_sound_partial", "partial", "accepts ∧ width = n ⇒ feasible (no forced start)"),
                      T("Rl4co.Pdp.check_sound_partial_force", "partial", "accepts ∧ width = n+1 ∧ depot first ⇒ feasible (forced start)"),
                      T("Rl4co.Pdp.check_sound_partial_force_tour", "partial", "accepts ∧ width = n+1 ⇒ feasible closed depot tour, depot first or last (forced start)"),
-                     T("Rl4co.Pdp.check_sound_counterexample", "proved", "¬ full soundness: [1,2] on 2 pairs is accepted (known finding)")],
+                     T("Rl4co.Pdp.check_sound_counterexample", "proved", "¬ full soundness: [1,2] on 2 pairs is accepted (known finding)"),
+                     T("Rl4co.Pdp.feasible_iff_check_and_width", "proved", "no forced start: feasible ⇔ accepted ∧ width = n"),
+                     T("Rl4co.Pdp.feasibleTour_iff_check_and_width", "proved", "forced start: feasible closed depot tour (depot first or last) ⇔ accepted ∧ width = n+1")],
+    # ---------------- C12
+    ("C12", "pdp"): [T("Rl4co.Pdp.selectStartNodes_eq_startsOf", "proved", "PDPEnv.select_start_nodes is the generic rule startsOf B k 1 h (pickups)"),
+                     T("Rl4co.Pdp.starts_feasible", "proved", "no forced depot start, k ≤ get_num_starts: every forced start is admitted by the reset mask"),
+                     T("Rl4co.Pdp.starts_distinct", "proved", "k ≤ get_num_starts: the starts of one instance are pairwise distinct"),
+                     T("Rl4co.Pdp.starts_are_pickups", "proved", "every selected node is a pickup 1..h"),
+                     T("Rl4co.Pdp.starts_feasible_force_counterexample", "proved", "¬ feasibility under force_start_at_depot=True (known finding)"),
+                     T("Rl4co.Pdp.starts_infeasible_force", "proved", "exact negative: with the forced depot start no selected start is admitted")],
     # ---------------- C07
     ("C07", "smtwtp"): [T("Rl4co.Smtwtp.perm_of_run", "proved", "a finished mask-confined episode schedules every job 1..n exactly once and nothing else"),
                         T("Rl4co.Smtwtp.dummy_never_offered", "proved", "the dummy node 0 is masked in every reachable state"),
@@ -1116,6 +1206,7 @@ RUNS = {
     "C06": {"tsp": lambda c: check_checker_eq(c, TSP), "atsp": lambda c: check_checker_eq(c, ATSP),
             "pdp": _both(check_checker_eq)},
     "C07": {"smtwtp": lambda c: check_smtwtp_perm(c, SM)},
+    "C12": {"pdp": check_pdp_starts},
 }
 EXTRA = {
     "C04": ["batch rows are compared with the per-instance model, with the model's batched step (batch-global first-step flag "
